@@ -32,17 +32,24 @@ READY = True
 STATEFUL = True
 THEOREMS = [
     "C05.wf_of_list_constructor", "C05.wf_of_map_constructor", "C05.list_derivations", "C05.list_items",
-    "C05.map_derivations", "C05.map_items", "C05.map_string_keys", "C05.dict_key_order", "C05.dict_last_value",
-    "C05.seq_items", "C05.empty_and_absent", "C05.final_delim", "C05.final_delim_map", "C05.nesting",
+    "C05.map_derivations", "C05.map_items", "C05.map_string_keys", "C05.dict_key_order",
+    "C05.dict_last_value", "C05.seq_items", "C05.empty_and_absent", "C05.final_delim", "C05.final_delim_map",
+    "C05.nesting", "C05.nesting_every_derivation", "C05.squash_around_items", "C05.no_exceptions",
+    "C05.squash_data",
 ]
 
-RULE = ("one case = one grammar + up to 12 rendered values; distinct by protocol text; non-trivial = at least one "
-        "text whose value holds a container with >= 2 entries or a nested container")
+RULE = ("one case = one grammar (real LLParser rebuilt from a JSON spec) + 8-14 rendered values, or 20 template "
+        "constructor calls, or one un-flattened sequence; distinct by protocol text; non-trivial = at least one text whose "
+        "value holds a container with >= 2 entries or nesting depth >= 2 (template / sequence cases always)")
 TRUSTED = ["the tokenizer and the LL parse loop of ak/llparser.py produce the raw tree (C01's subject); it enters the "
            "model as data", "the factorised prods_map / suffix symbols given to _make_squash_data enter as data"]
 ASSUMPTIONS = ["item symbol differs from the bracket and delimiter symbols of its ListProds (hypothesis WF of the "
-               "theorems; ListProds('[','WORD','WORD',']') is outside the property)",
-               "raw trees conform to the generated productions (checked on every generated tree by the `cf` lines)"]
+               "theorems; ListProds('[','WORD','WORD',']') is outside the property: _find_index then picks the delimiter)",
+               "raw trees returned by the parser conform to the generated productions and are well-typed (C01's claim; "
+               "evaluated by the compiled model on every generated tree: `cf` lines)",
+               "keep_symbols is not a template option: with the item symbol kept and the item nullable only through an "
+               "optional list used as its own item, the 'absent list' read after a final delimiter is a kept element, not "
+               "None, and stays in the list (observed, not generated); a kept key symbol makes keys TElements (identity)"]
 
 
 # ------------------------------------------------------------------ translator
@@ -1201,7 +1208,7 @@ def shrink(case):
 
 def nontrivial(case, replies):
     return any(it.get("size", [0, 0])[0] >= 2 or it.get("size", [0, 0])[1] >= 2 for it in case.get("items", [])) \
-        or case.get("meta", {}).get("kind") in ("templates",)
+        or case.get("meta", {}).get("kind") in ("templates", "seq-flatten")
 
 
 def tags(case, replies):
@@ -1233,6 +1240,33 @@ def corpus():
     c = make_case(spec, items, {"kind": "corpus", "what": "list below a sequence"})
     return [c] if c is not None else []
 
-LEVEL_TEXT = ""
-LEVEL_NOTE = ""
-TECHNIQUE = ""
+LEVEL_TEXT = (
+    "Kernel-checked for all raw trees / all option combinations on the model of ListProds, MapProds, ProdSequence and "
+    "StdCleanuper._cleanup (signature dictionaries, _find_index positions, value[pos] walk, squashing): every tree that "
+    "conforms to the productions the templates generate has one of the derivation shapes (list_derivations, "
+    "map_derivations); the table-driven walk returns exactly the item / key-value subtrees of that derivation in document "
+    "order, each cleaned with for_container=True, leaves replaced by their value, with exactly the two documented "
+    "adjustments (list_items, map_items); dict(kv_pairs) keeps first-occurrence key order and the last value "
+    "(map_string_keys, dict_key_order, dict_last_value); sequences are flattened in order and cleaned element-wise without "
+    "loss (seq_items); empty brackets give [] / {}, absent optional containers keep None (empty_and_absent); a bare final "
+    "delimiter can be derived only when allowed and never changes the result (final_delim, final_delim_map); for the json-like "
+    "grammar the clean-up of any tree denoting nested data d is pyval(d) at every depth and every conforming tree of that "
+    "grammar denotes some d (nesting, nesting_every_derivation); squashable wrappers vanish "
+    "around items, kept ones stay (squash_around_items); the clean-up of a well-typed conforming tree never raises "
+    "Assertion/Index/AttributeError (no_exceptions); _make_squash_data characterised (squash_data); the constructors' options "
+    "are well-formed when user symbols contain no '__' and the item symbol is not a bracket/delimiter symbol "
+    "(wf_of_list_constructor, wf_of_map_constructor). Acceptance/rejection of texts (a final delimiter is *parsed* only when "
+    "allowed) and parse(render(d)).value == d rest on the oracle run against the real parser, not on a theorem: the LL parse "
+    "loop is C01's model, the raw tree enters this model as data.")
+LEVEL_NOTE = (
+    "Trusted: Lean kernel (axioms propext, Classical.choice, Quot.sound), translator for the generated symbol suffixes and "
+    "MapProds' allow_final_delimiter default, adapter/oracle in harness/c05.py, the real tokenizer + parse loop producing the raw "
+    "tree and the real factorised prods_map fed to the modelled _make_squash_data, sampled correspondence: model cleanup(raw "
+    "tree) == real parse(text) for every accepted ListProds option combination x both smart_factorization values x keep_symbols "
+    "variants, nested json-like data with objects / optional containers / sequences / bracket-less maps / nullable items and "
+    "values / token items / non-terminal delimiters / composite keys, random blanks, newlines and comments; generated "
+    "productions, signature tables, sequence flattening, squash data and the theorems' hypotheses (conforms, wellTyped) "
+    "are compared / evaluated on every case as diagnostics.")
+TECHNIQUE = ("Lean 4 theorems over an executable structural-recursive model of the templates and the cleanuper (derivation "
+             "shapes as inductive predicates, case analysis over all option fields) + translator for generated names + "
+             "differential run of the compiled model against the real parser + render/parse/denote oracle")
